@@ -18,7 +18,12 @@ Clauses(c) ==
      \cup (IF c.op = "read" /\ c.exc = "" /\ c.ret # Readable(c.pre) THEN {"read-value"} ELSE {})
      \cup {"calls-" \o m : m \in {x \in Mechs : bad(x)}}
      \* the property itself, on the observed calls (independent of the code-shaped filters above)
-     \cup (IF c.op = "assign" /\ c.exc = "" /\ c.cfg.kind = "trait" /\
+     \* after the operation exactly the registrations the specification says are left (one-shot handlers that were called
+     \* are gone, nobody else's registration is touched)
+     \cup (IF {c.regsafter[k] : k \in 1..Len(c.regsafter)} = RegsAfterCalls(c.op, regs, c.v, r.calls) THEN {} ELSE {"registrations-after"})
+     \* handlers of x are not called for the sibling attribute x2, and the object-level handlers hear of x2 exactly once
+     \cup (IF c.stray = 0 THEN {} ELSE {"C02-handler-called-for-another-trait"})
+     \cup (IF c.op \in {"assign", "assign1"} /\ c.exc = "" /\ c.cfg.kind = "trait" /\
               \E m \in Mechs : Len(c.calls[m]) # (IF Registered(c.cfg, regs, m) /\ IsChange(c.cfg.mode, Readable(c.pre), c.v) THEN 1 ELSE 0)
            THEN {"C02-exactly-once"} ELSE {})
 Judge == i <= 0 \/ LET f == Clauses(Trace[i]) IN IF f = {} THEN TRUE ELSE PrintT(<<"REJECT", i, f>>)
